@@ -33,7 +33,7 @@ if [ "${OFFICIAL:-1}" = "1" ]; then
   HOW="git -C /repo apply patch.diff; ./run.sh $PROP quick; git -C /repo checkout -- ."
   git -C /repo apply "$OUT/patch.diff" || { echo "patch does not apply to /repo"; exit 2; }
   VERIF_EVIDENCE_DIR=/tmp/ev-seed-$ID ./run.sh "$PROP" quick > /tmp/confirm-$ID.check 2>&1; RC=$?
-  git -C /repo checkout -- .
+  git -C /repo checkout -- .; git -C /repo clean -fdq
 else
   # against a scratch worktree of /repo with the patch applied (used while a long sweep is reading /repo)
   HOW="scratch worktree of /repo with patch.diff applied; VERIF_REPO=<worktree> ./run.sh $PROP quick (re-run the official way by sensitivity/rerun_seeds.sh)"
